@@ -160,7 +160,20 @@ def run_property(prop, tier, seed):
     names = list(spec.get("searchers", []))
     if names and os.environ.get("VERIF_NO_BOUNDED") != "1":
         budget = int(os.environ.get("VERIF_BOUNDED_BUDGET", "2000" if tier == "thorough" else "400"))
+        os.environ["VERIF_TIER"] = tier
         bounded, berr = rp.run_bounded(names, seed, budget)
+        if tier == "thorough" and not berr and not any(b.get("witness") for b in bounded):
+            # thorough: four more generator seeds derived from VERIF_SEED
+            for extra in range(1, 5):
+                more, berr2 = rp.run_bounded(names, seed + 1000 * extra, budget)
+                for b, m in zip(bounded, more):
+                    b["cases"] += m["cases"]; b["distinct"] = b.get("distinct", 0) + m.get("distinct", 0)
+                    b["distinct_nontrivial"] = b.get("distinct_nontrivial", 0) + m.get("distinct_nontrivial", 0)
+                    b["wall_s"] = round(b["wall_s"] + m["wall_s"], 2)
+                    if m.get("witness") and not b.get("witness"):
+                        b["witness"] = m["witness"]
+                if any(m.get("witness") for m in more):
+                    break
         if berr:
             undecided.append("bounded stand-ins not run: " + berr[-600:])
         for b in bounded:
